@@ -280,6 +280,8 @@ def run_symbolic(spec):
             except Exception as e:  # noqa
                 res["leaves"].append(dict(env=[str(v) for v in penv], kind="raise", ndec=0, digest={"exc": type(e).__name__}, exc=type(e).__name__, probe=True))
         res["stats"] = stats
+        res["cvc5"] = {k: v for k, v in core.TR.cvc5_stats.items() if k != "samples"}
+        res["cvc5_disagreements"] = core.TR.cvc5_stats["samples"][:2]
         res["functions"] = sorted(entered)
         res["names"] = names
         res["wall"] = round(time.time() - t_start, 3)
